@@ -39,7 +39,12 @@ type ConcTrace struct {
 // RunTCPConc runs n block-wise exchanges (different tokens, different bodies, one path) at the same time between two
 // real tcp connections joined by the driver's relay (fault-free). Exchange k uploads Body(L + k, salt k) when L > 0
 // and is told apart at the server by its query "x=<k>".
-func RunTCPConc(p Params, n int) ConcTrace {
+func RunTCPConc(p Params, n int) ConcTrace { return runTCPConc(p, n, false) }
+
+// RunTCPConcZ: the same with tokens that differ only in leading zero bytes (2a, 00 2a, 00 00 2a, ...): different tokens
+func RunTCPConcZ(p Params, n int) ConcTrace { return runTCPConc(p, n, true) }
+
+func runTCPConc(p Params, n int, zeroTokens bool) ConcTrace {
 	tr := ConcTrace{Op: "conc", Tr: "tcp", P: p, N: n, X: make([]ConcX, n)}
 	ups := make([][]byte, n)
 	for k := range ups {
@@ -59,6 +64,15 @@ func RunTCPConc(p Params, n int) ConcTrace {
 			cfg.MaxMessageSize = uint32(mms)
 			if handler != nil {
 				cfg.Handler = handler
+			} else if zeroTokens {
+				var tmu sync.Mutex
+				nt := 0
+				cfg.GetToken = func() (message.Token, error) {
+					tmu.Lock()
+					defer tmu.Unlock()
+					nt++
+					return append(make([]byte, (nt-1)%8), 0x2a+byte((nt-1)/8)), nil
+				}
 			}
 		})
 	}
@@ -86,6 +100,9 @@ func RunTCPConc(p Params, n int) ConcTrace {
 		_ = w.SetResponse(code, message.AppOctets, bytes.NewReader(DownBody(p.L2, v)), message.Option{ID: message.MaxAge, Value: []byte{7}}, message.Option{ID: message.ETag, Value: []byte{byte(v)}})
 	})
 	C := mk(p.CS, p.CMMS, nil)
+	if zeroTokens {
+		tr.Tr = "tcp-zero-tokens"
+	}
 	defer S.Close()
 	defer C.Close()
 	csm := conns.Frame(int(codes.CSM), []byte{1}, message.Options{{ID: message.TCPBlockWiseTransfer, Value: []byte{}}}, nil)
